@@ -347,6 +347,11 @@ func (its *PushPullHandler) processSubscribeOrCreate(code pushPullCase) errors.O
 		case caseUsedDUID: // duplicate DUID; can create with key but with another DUID
 		case caseMatchKeyNotType: // key is already used;
 		case caseAllMatchedSubscribed: // already created and subscribed; might duplicate creation; do nothing
+			if its.datatypeDoc.DUID != its.DUID {
+				// not a repeated creation: the key names a datatype with another DUID, and the handler must
+				// never go on with the DUID of the request (it may be the DUID of any other datatype)
+				return errors.PushPullDuplicateKey.New(its.ctx.L(), its.Key)
+			}
 		case caseAllMatchedNotSubscribed: // error: already created but not subscribed;
 			return errors.PushPullDuplicateKey.New(its.ctx.L(), its.Key)
 		case caseAllMatchedNotVisible: //
